@@ -199,6 +199,33 @@ func cmdXref(args []string) int {
 		return 1
 	}
 	switch args[0] {
+	case "error-propagation":
+		n := 0
+		seen := map[string][2]int{}
+		for _, pr := range e.errorPropagations(args[1:]...) {
+			if isErrorConstructor(pr.Callee) {
+				continue
+			}
+			k := propagationKey(pr)
+			c := seen[k]
+			c[1]++
+			if pr.Path == nil {
+				c[0]++
+				n++
+			}
+			seen[k] = c
+		}
+		keys := make([]string, 0, len(seen))
+		for k := range seen {
+			keys = append(keys, k)
+		}
+		sort.Strings(keys)
+		for _, k := range keys {
+			if seen[k][0] > 0 {
+				fmt.Printf("\t%q: {%d, %d},\n", k, seen[k][0], seen[k][1])
+			}
+		}
+		fmt.Println(n, "propagating call sites,", len(keys), "pairs")
 	case "lost-updates":
 		fields := map[*types.Var]bool{}
 		for _, fn := range e.RepoFuncs {
